@@ -70,6 +70,7 @@ def _case(draw, tier):
             # the class of the exception the node body raises: a custom class, or a subclass of a built-in one that library code
             # might itself catch (TypeError from a call, KeyError from a lookup, ...)
             "fail_exc": draw(st.sampled_from(["plain", "plain", "type", "key", "value", "runtime"])),
+            "fail_chained": prob(draw, 0.35),  # the failing body uses `raise X from low_level_error`
             # a nested graph that PAUSES at an interrupt in the first superstep, listed after a failing source node of that step
             "pausing_sibling": prob(draw, 0.25)}
 
@@ -79,6 +80,7 @@ def strategy(tier):
 
 
 FAIL_EXC = [None]  # set per case
+FAIL_CHAINED = [False]
 
 
 def _with_fail(nodes, failing, per_args=False):
@@ -89,7 +91,7 @@ def _with_fail(nodes, failing, per_args=False):
             g["nodes"] = _with_fail(g["nodes"], failing, per_args)
             out.append({**n, "graph": g})
         elif n["name"] in failing:
-            out.append({**n, "fail": "always", "fail_exc": FAIL_EXC[0], **({"fail_per_args": True} if per_args else {})})
+            out.append({**n, "fail": "always", "fail_exc": FAIL_EXC[0], **({"fail_per_args": True} if per_args else {}), **({"fail_chained": True} if FAIL_CHAINED[0] else {})})
         else:
             out.append(n)
     return out
@@ -275,7 +277,10 @@ def check_case(case, ev):
 
     mapped = case["mapped"]
     FAIL_EXC[0] = case.get("fail_exc")
+    FAIL_CHAINED[0] = bool(case.get("fail_chained"))
     labels.add("raises:" + str(case.get("fail_exc") or "plain"))
+    if FAIL_CHAINED[0]:
+        labels.add("raised_from_an_explicit_cause")
     for failing in singles + pairs:
         fspec_nodes = _with_fail(nodes, set(failing))
         if any(flat_pred[f] and flat_desc[f] for f in failing):
